@@ -14,6 +14,7 @@ the statement is that this index is the (strict, for smoothing < 1) argmax of th
 -/
 import KDVerif.Lemmas.Labels
 import KDVerif.Lemmas.LabelsEnc
+import KDVerif.Lemmas.C16Extra
 
 namespace KDVerif.C16
 open KDVerif.Labels
@@ -934,5 +935,416 @@ theorem label_pure (labels labels' : List Int) (nc nc' cpg cpg' : Nat) (sh sh' :
   by_cases h : p1 = p2
   · subst h; exact Or.inl rfl
   · exact Or.inr h
+
+/-! ## Closed forms, totality and announced ranges (second round)
+
+Each theorem below states, for one wrapper and over the whole domain of the property, that
+
+  * the constructor succeeds and **no accessor raises** (totality),
+  * the per-sample accessor at *every* index and the bulk accessor **read one and the same list** — a closed form
+    (`cgSpec`, `rsSpec`, `swSpec`, `agSpec`, `plSpec`, `rcSpec`, `smSpec` of `Model/C16Spec.lean`) that is written without the
+    model's recursion and takes the wrapped labels, the constructor arguments and the draws made *in the constructor*
+    and nothing else: this is "the mapping is a function of the constructor arguments and seed", and, because the
+    accessors take no draw (the only exception, top-k pseudo labels, is treated separately), "the tape is consumed at
+    construction only",
+  * the list has one entry per sample and every entry lies in the range **announced** by the wrapper's class-shape
+    query (`cgShape` … `smShape`), or is -1.
+
+Hypotheses are the property's domain and the contracts of the generators (`rng.permutation(k)` returns a
+rearrangement of `range(k)`, `rng.random(size=n)` returns `n` numbers, …); each is named in the docstring. -/
+
+/-- **ClassGroupsWrapper.** Domain: a positive group size dividing the class count (the property's domain), wrapped
+    labels in `0 .. nc-1` (what the wrapped dataset announces), and — when shuffling — `rng.permuted` returned a
+    rearrangement of its argument. Then the constructor succeeds, `getitem_class(i)` (any `i`; outside the dataset both
+    sides are `IndexError`) and `getall_class()` read the list `cgSpec`: sample `i` of class `c` gets
+    `table[c] * cpg + (number of earlier samples of class c) % cpg`, where `table` is the draw or `c ↦ c / cpg`; the list
+    has one entry per sample, all in `0 .. cgShape nc - 1` (the delegated class-shape query), and the group of each
+    produced label (its quotient by `cpg`) is below the number of groups. -/
+theorem classGroups_closed_form_total (labels : List Int) (nc cpg : Nat) (shuffle : Bool) (permuted : List Nat)
+    (hpos : 0 < cpg) (hdiv : cpg ∣ nc) (hl : ∀ c ∈ labels, 0 ≤ c ∧ c < (nc : Int))
+    (hperm : shuffle = true → permuted.Perm (cgTable0 nc cpg)) :
+    ∃ st, cgCtor labels nc cpg shuffle permuted = .ok st ∧
+      (∀ i, cgGetitem st i = listGet (cgSpec labels cpg (cgSpecTable nc cpg shuffle permuted)) i) ∧
+      cgGetall st = .ok (cgSpec labels cpg (cgSpecTable nc cpg shuffle permuted)) ∧
+      (cgSpec labels cpg (cgSpecTable nc cpg shuffle permuted)).length = labels.length ∧
+      ∀ l ∈ cgSpec labels cpg (cgSpecTable nc cpg shuffle permuted),
+        0 ≤ l ∧ l < (cgShape nc : Int) ∧ l.toNat / cpg < cgNumGroups nc cpg := by
+  have h0 : ¬ cpg = 0 := by omega
+  have htab : (if shuffle then permuted else cgTable0 nc cpg) = cgSpecTable nc cpg shuffle permuted := by
+    unfold cgSpecTable
+    cases shuffle with
+    | true => rfl
+    | false => simp [c16x_cgTable0_eq nc cpg hpos]
+  have hctor : cgCtor labels nc cpg shuffle permuted =
+      .ok ⟨labels, cpg, cgSpecTable nc cpg shuffle permuted, idxWithin labels⟩ := by
+    unfold cgCtor
+    rw [if_neg h0, htab]
+  have htl : nc ≤ (cgSpecTable nc cpg shuffle permuted).length := by
+    rw [← htab]
+    have := le_ceilDiv_mul nc cpg hpos
+    cases hs : shuffle with
+    | true => simp only [if_true]; rw [(hperm hs).length_eq, cgTable0_length]; exact this
+    | false => simp only [Bool.false_eq_true, if_false]; rw [cgTable0_length]; exact this
+  obtain ⟨hitem, hall⟩ := c16x_cg_main labels nc cpg (cgSpecTable nc cpg shuffle permuted) hl htl
+  refine ⟨_, hctor, hitem, hall, by simp [cgSpec], ?_⟩
+  intro l hlm
+  have hr := (classGroups_in_range labels nc cpg shuffle permuted _ hdiv hperm hctor).2 _ hall l hlm
+  refine ⟨hr.1, hr.2, ?_⟩
+  obtain ⟨k, rfl⟩ := hdiv
+  unfold cgNumGroups
+  rw [ceilDiv_of_dvd cpg k hpos]
+  apply Nat.div_lt_of_lt_mul
+  have : l.toNat < cpg * k := by omega
+  exact this
+
+/-- non-vacuity and value: 6 classes in groups of 2, unshuffled (`c ↦ c / 2`) and shuffled -/
+example : cgSpec [0, 5, 0, 3] 2 (cgSpecTable 6 2 false []) = [0, 4, 1, 2] ∧
+    cgSpec [0, 5, 0, 3] 2 (cgSpecTable 6 2 true [1, 0, 2, 2, 0, 1]) = [2, 2, 3, 4] ∧ (2 ∣ 6) ∧
+    [1, 0, 2, 2, 0, 1].Perm (cgTable0 6 2) := ⟨by decide, by decide, by decide, by decide⟩
+
+/-- **RandomSuperclassWrapper.** Domain: a positive superclass size, at least one split, wrapped labels in `0 .. nc-1`,
+    and — when shuffling — both `rng.permutation` calls returned rearrangements of `range(nc)` / `range(len)` (the
+    second is made only when there is more than one split). Then the constructor succeeds, both accessors read the
+    list `rsSpec`: sample `i` of class `c` gets `perm[c] / cps`, plus, with splits, `(rank of i among the samples of
+    its class in the order perm2) % splits * ceil(nc / cps)`; one entry per sample, all below
+    `getshape_class()[0] = rsShape st = ceil(nc / cps) * splits`. -/
+theorem randomSuperclass_closed_form_total (labels : List Int) (nc cps splits : Nat) (shuffle : Bool)
+    (perm1 perm2 : List Nat) (hpos : 0 < cps) (hs : 1 ≤ splits) (hl : ∀ c ∈ labels, 0 ≤ c ∧ c < (nc : Int))
+    (hp1 : shuffle = true → perm1.Perm (List.range nc))
+    (hp2 : shuffle = true → splits > 1 → perm2.Perm (List.range labels.length)) :
+    ∃ st, rsCtor labels nc cps splits shuffle perm1 perm2 = .ok st ∧
+      (∀ i, rsGetitem st i = listGet (rsSpec labels nc cps splits shuffle perm1 perm2) i) ∧
+      rsGetall st = .ok (rsSpec labels nc cps splits shuffle perm1 perm2) ∧
+      (rsSpec labels nc cps splits shuffle perm1 perm2).length = labels.length ∧
+      rsShape st = ceilDiv nc cps * splits ∧
+      ∀ l ∈ rsSpec labels nc cps splits shuffle perm1 perm2, 0 ≤ l ∧ l < (rsShape st : Int) := by
+  obtain ⟨st, hctor, hitem, hall⟩ := c16x_rs_main labels nc cps splits shuffle perm1 perm2 hpos hl hp1 hp2
+  refine ⟨st, hctor, hitem, hall, by simp [rsSpec], ?_, ?_⟩
+  · unfold rsCtor at hctor
+    rw [if_neg (by omega)] at hctor
+    simp only [Except.ok.injEq] at hctor
+    subst hctor
+    rfl
+  · intro l hlm
+    exact (randomSuperclass_in_range labels nc cps splits shuffle perm1 perm2 st hs hp1 hctor).2 _ hall l hlm
+
+/-- non-vacuity and value: 5 classes, superclasses of 2, 2 splits, both permutations drawn (the instance of the
+    example further up) -/
+example : rsSpec [0, 4, 0, 2] 5 2 2 true [3, 0, 4, 1, 2] [2, 0, 3, 1] = [4, 1, 1, 2] ∧
+    [3, 0, 4, 1, 2].Perm (List.range 5) ∧ [2, 0, 3, 1].Perm (List.range 4) := ⟨by decide, by decide, by decide⟩
+
+/-- **SwapLabelWrapper.** Domain: `0 ≤ p ≤ 1`, the generator returned one uniform and one integer of `0 .. nc-1` per
+    sample, wrapped labels in range or -1. Then the constructor succeeds and both accessors read `swSpec`: sample `i`
+    gets the drawn label where its uniform is below `p` and keeps its own otherwise; every entry lies in the
+    (delegated) announced range or is -1. -/
+theorem swap_closed_form_total (labels : List Int) (nc : Nat) (p : Rat) (us : List Rat) (news : List Int)
+    (hp : 0 ≤ p ∧ p ≤ 1) (hus : us.length = labels.length) (hnews : news.length = labels.length)
+    (hl : ∀ c ∈ labels, InRange nc c) (hn : ∀ v ∈ news, 0 ≤ v ∧ v < (nc : Int)) :
+    ∃ st, swCtor labels p us news = .ok st ∧
+      (∀ i, swGetitem st i = listGet (swSpec labels p us news) i) ∧
+      swGetall st = .ok (swSpec labels p us news) ∧
+      (∀ i, swGetitemApply st i = listGet (us.map (fun u => decide (u < p))) i) ∧
+      (swSpec labels p us news).length = labels.length ∧
+      ∀ l ∈ swSpec labels p us news, InRange (swShape nc) l := by
+  have hctor := c16x_sw_main labels p us news hp hus hnews
+  refine ⟨_, hctor, fun _ => rfl, rfl, fun _ => rfl, by simp [swSpec], ?_⟩
+  intro l hlm
+  exact (swap_in_range labels nc p us news _ hl hn hctor).2 _ rfl l hlm
+
+example : swSpec [0, -1, 2] (1 / 2) [1 / 4, 3 / 4, 1 / 8] [1, 1, 0] = [1, -1, 0] := by decide +kernel
+
+/-- **OverwriteClassesWrapper.** The constructor succeeds exactly when the table has one entry per sample (its own
+    assert); then the per-sample accessor reads the table (any index) and the bulk accessor returns it. The announced
+    range is the wrapped dataset's (`owShape`); whether the table respects it is up to the caller
+    (`overwrite_in_range`). -/
+theorem overwrite_total (labels classes : List Int) :
+    ((∃ st, owCtor labels classes = .ok st) ↔ classes.length = labels.length) ∧
+    (classes.length = labels.length → ∃ st, owCtor labels classes = .ok st ∧
+      (∀ i, owGetitem st i = listGet classes i) ∧ owGetall st = .ok classes) := by
+  constructor
+  · constructor
+    · intro ⟨st, h⟩
+      unfold owCtor at h
+      by_cases hc : classes.length = labels.length
+      · exact hc
+      · rw [if_neg hc] at h; cases h
+    · intro h
+      exact ⟨_, by unfold owCtor; rw [if_pos h]⟩
+  · intro h
+    have hctor : owCtor labels classes = .ok ⟨classes, labels.length⟩ := by unfold owCtor; rw [if_pos h]
+    exact ⟨_, hctor, fun _ => rfl, overwrite_bulk_is_table labels classes _ hctor⟩
+
+/-- a table of the right length is accepted and handed out; one entry too few is refused by the assert -/
+example : (∃ st, owCtor [0, 1, 2] [2, -1, 0] = .ok st ∧ owGetall st = .ok [2, -1, 0] ∧ owGetitem st 1 = .ok (-1)) ∧
+    owCtor [0, 1, 2] [2, -1] = .error .assertion := ⟨⟨_, rfl, by decide, by decide⟩, rfl⟩
+
+/-- **AllgatherClassWrapper — the gathered list is the ranks' shards in rank order.** Domain: `0 < world_size ≤ len`.
+    The specification `agSpec labels W = allGatherOrder labels W` is written with Python slices, not with the model's
+    rearrangement: pad the list with its own head to a multiple of `W` (what `DistributedSampler(shuffle=False)` does),
+    give rank `r` the slice `padded[r::W]`, concatenate the ranks' shards in rank order (what `all_gather` does), keep
+    the first `len` entries. Then: the constructor succeeds; the stored `indices` are that order applied to `range(len)`;
+    the per-sample accessor at every index and the bulk accessor read `agSpec`; one entry per sample. -/
+theorem allgather_is_rank_concatenation (labels : List Int) (W : Nat) (hW : 0 < W) (hWn : W ≤ labels.length) :
+    ∃ st, agCtor labels W = .ok st ∧ st.indices = allGatherOrder (List.range labels.length) W ∧
+      (∀ i, agGetitem st i = listGet (agSpec labels W) i) ∧
+      agGetall st = .ok (agSpec labels W) ∧ (agSpec labels W).length = labels.length := by
+  obtain ⟨h1, h2, h3, h4⟩ := c16x_ag_main labels W hW hWn
+  exact ⟨_, h1, rfl, h3, h4, h2⟩
+
+/-- **AllgatherClassWrapper — closed form of one position.** With `S = (len + pad) / W` samples per rank, position `k`
+    of the gathered list is the label of sample `j = (k % S) * W + k / S` (offset `k % S` in the shard of rank `k / S`),
+    or of sample `j - len` if `j` falls into the padding. -/
+theorem allgather_closed_form (labels : List Int) (W k : Nat) (hW : 0 < W) (hWn : W ≤ labels.length)
+    (hk : k < labels.length) : (agSpec labels W)[k]? = labels[agIdx labels.length W k]? :=
+  c16x_allGatherOrder_getElem? labels W k hW hWn hk
+
+/-- **AllgatherClassWrapper — when it is a rearrangement.** If the world size divides the dataset length nothing is
+    padded and the gathered list is a rearrangement of the wrapped labels. (With padding it need not be: see the example
+    below, 5 samples on 4 ranks — the cut removes the tail of the *last ranks'* shards, not the padded duplicates. The
+    labels still all come from the wrapped dataset: `allgather_in_announced_range`.) -/
+theorem allgather_perm_of_dvd (labels : List Int) (W : Nat) (hW : 0 < W) (hWn : W ≤ labels.length)
+    (hdiv : W ∣ labels.length) : (agSpec labels W).Perm labels :=
+  c16x_allGatherOrder_perm labels W hW hWn hdiv
+
+/-- **AllgatherClassWrapper — announced range**: every gathered label is one of the wrapped labels, hence in the
+    (delegated) announced range or -1 -/
+theorem allgather_in_announced_range (labels : List Int) (W nc : Nat) (hW : 0 < W) (hWn : W ≤ labels.length)
+    (hl : ∀ c ∈ labels, InRange nc c) : ∀ l ∈ agSpec labels W, InRange (agShape nc) l :=
+  fun l hlm => hl l (c16x_allGatherOrder_mem labels W hW hWn l hlm)
+
+/-- 7 samples on 2 ranks (one padded sample): shards `[0,2,4,6]`, `[1,3,5,(0)]`; 6 on 3: a rearrangement; 5 on 4
+    (three padded samples): sample 3 is lost and sample 0 appears twice — not a rearrangement -/
+example : agSpec [0, 1, 2, 3, 4, 5, 6] 2 = [0, 2, 4, 6, 1, 3, 5] ∧ agSpec [10, 11, 12, 13, 14, 15] 3 = [10, 13, 11, 14, 12, 15] ∧
+    agSpec [0, 1, 2, 3, 4] 4 = [0, 4, 1, 0, 2] ∧ (List.range 5).map (agIdx 5 4) = [0, 4, 1, 0, 2] :=
+  ⟨by decide, by decide, by decide, by decide⟩
+
+/-- the hypotheses of `allgather_perm_of_dvd` on 6 samples and 3 ranks, and its conclusion; and its failure on 5 / 4 -/
+example : (3 ∣ 6) ∧ (agSpec [10, 11, 12, 13, 14, 15] 3).Perm [10, 11, 12, 13, 14, 15] ∧
+    ¬ (agSpec [0, 1, 2, 3, 4] 4).Perm [0, 1, 2, 3, 4] := ⟨by decide, by decide, by decide⟩
+
+/-- **KDPseudoLabelWrapper without sampling** (hard table; soft table; soft table with threshold). Domain: at least one
+    class, the table has one entry / one row of `C` columns per sample (the constructor's asserts, `plWellFormed`), the
+    threshold oracle has one bit per row, the configuration is one the per-sample accessor accepts (`plValid`: no
+    threshold on a hard table), and a hard table holds labels of the announced range or -1 (it is a constructor
+    argument). Then the constructor succeeds; the per-sample accessor — **for every draw `d`: it reads none** — and the
+    bulk accessor read the list `plSpec` (the table / the row-wise argmax / the argmax where the confidence bit is set
+    and -1 elsewhere); one entry per sample, each in `0 .. plShape C - 1` or -1. -/
+theorem pseudoLabel_static_closed_form_total (n C : Nat) (table : PTable) (thr : Option (List Bool))
+    (topkIdx : List (List Nat)) (hC : 0 < C) (hwf : plWellFormed n C table thr) (hv : plValid table thr none .none)
+    (hhard : ∀ ls, table = .hard ls → ∀ c ∈ ls, InRange C c) :
+    ∃ st, plCtor n C table thr none .none topkIdx = .ok st ∧
+      (∀ i d, plGetitem st i d = listGet (plSpec table thr) i) ∧
+      plGetall st = .ok (plSpec table thr) ∧ (plSpec table thr).length = n ∧
+      ∀ l ∈ plSpec table thr, InRange (plShape C) l := by
+  obtain ⟨hlen, hitem, hall⟩ := c16x_pl_static n C table thr topkIdx hwf hv
+  refine ⟨_, c16x_plCtor_ok n C table thr none .none topkIdx hwf, hitem, hall, hlen, ?_⟩
+  intro l hlm
+  cases table with
+  | hard ls => exact hhard ls rfl l hlm
+  | soft rows =>
+    simp only [plWellFormed] at hwf
+    have harg : ∀ r ∈ rows, InRange C (argmax r : Int) := by
+      intro r hr
+      have h1 := hwf.2.1 r hr
+      have h2 := argmax_lt r (by omega)
+      exact Or.inr ⟨Int.natCast_nonneg _, Int.ofNat_lt.mpr (by omega)⟩
+    cases thr with
+    | none =>
+      simp only [plSpec, List.mem_map] at hlm
+      obtain ⟨r, hr, rfl⟩ := hlm
+      exact harg r hr
+    | some bits =>
+      simp only [plSpec] at hlm
+      refine zipWith_all (P := InRange C) rows bits ?_ l hlm
+      intro r hr b _
+      cases b
+      · exact Or.inl rfl
+      · exact harg r hr
+
+example : plSpec (.soft [[1, 1, 1], [0, 3, 1]]) (some [false, true]) = [-1, 1] ∧
+    plWellFormed 2 3 (.soft [[1, 1, 1], [0, 3, 1]]) (some [false, true]) ∧
+    plValid (.soft [[1, 1, 1], [0, 3, 1]]) (some [false, true]) none .none := by
+  refine ⟨by decide, ⟨rfl, ?_, ?_⟩, ?_⟩
+  · intro r hr; simp at hr; rcases hr with rfl | rfl <;> rfl
+  · intro bits h; cases h; rfl
+  · simp [plValid]
+
+/-- **KDPseudoLabelWrapper with top-k sampling** (with or without temperature). What the code does: `getall_class`
+    raises `NotImplementedError` whenever `topk` or `tau` is given — with or without a seed — so there is no bulk accessor
+    to compare with. What holds instead, over the domain `k ≤ C`, one row of `C` columns per sample, `torch.topk`
+    returned `k` positions `< C` per row: the constructor succeeds; the per-sample accessor is total for every draw
+    `d < k` and returns the `d`-th top-k position of the sample's row, a label of the announced range; hence the
+    comprehension `[getitem_class(i) for i in range(len)]` under draws `d i` is the list `plTopkSpec n topkIdx d`. -/
+theorem pseudoLabel_topk_closed_form_total (n C : Nat) (rows : List (List Rat)) (k : Nat) (tau : Tau)
+    (topkIdx : List (List Nat)) (hwf : plWellFormed n C (.soft rows) none) (hk : k ≤ C)
+    (hrows : topkIdx.length = n) (hrow : ∀ ids ∈ topkIdx, ids.length = k)
+    (htk : ∀ ids ∈ topkIdx, ∀ c ∈ ids, c < C) :
+    ∃ st, plCtor n C (.soft rows) none (some k) tau topkIdx = .ok st ∧
+      plGetall st = .error .notImplemented ∧
+      (∀ i d, i < n → d < k → plGetitem st i d = .ok (((topkIdx.getD i []).getD d 0 : Nat) : Int)) ∧
+      (∀ d : Nat → Nat, (∀ i, i < n → d i < k) →
+        forRange n (fun i => plGetitem st i (d i)) = .ok (plTopkSpec n topkIdx d) ∧
+        (plTopkSpec n topkIdx d).length = n ∧
+        ∀ l ∈ plTopkSpec n topkIdx d, 0 ≤ l ∧ l < (plShape C : Int)) := by
+  obtain ⟨hitem, hall, hni⟩ := c16x_pl_topk n C rows k tau topkIdx hwf hk hrows hrow
+  refine ⟨_, c16x_plCtor_ok n C (.soft rows) none (some k) tau topkIdx hwf, hni, hitem, ?_⟩
+  intro d hd
+  refine ⟨hall d hd, by simp [plTopkSpec], ?_⟩
+  intro l hlm
+  simp only [plTopkSpec, List.mem_map, List.mem_range] at hlm
+  obtain ⟨i, hi, rfl⟩ := hlm
+  have hit : i < topkIdx.length := by omega
+  have hids : topkIdx[i].length = k := hrow _ (List.getElem_mem hit)
+  have hdi : d i < topkIdx[i].length := by rw [hids]; exact hd i hi
+  have hmem : (topkIdx.getD i []).getD (d i) 0 ∈ topkIdx[i] := by
+    have : (topkIdx.getD i []).getD (d i) 0 = topkIdx[i][d i] := by simp [hit, hdi]
+    rw [this]
+    exact List.getElem_mem hdi
+  have := htk _ (List.getElem_mem hit) _ hmem
+  exact ⟨Int.natCast_nonneg _, Int.ofNat_lt.mpr this⟩
+
+/-- **top-k with a seed is reproducible**: with `seed` given, `_getitem_class(idx)` builds a *fresh* generator
+    `default_rng(seed + idx)` and draws from it, so the drawn position is a function `fresh (seed + idx)` of `seed + idx`
+    alone (`fresh s` = the first position `default_rng(s)` yields; the global tape is not touched). For every such
+    `fresh` below `k`, the labels of all samples form the list `plTopkSpec n topkIdx (fun i => fresh (seed + i))` — the
+    same list on every evaluation, in whatever order and however often the samples are visited, and equal for two
+    samples `i`, `j` of two runs whenever `seed + i = seed' + j` and the top-k rows agree. -/
+theorem pseudoLabel_topk_seeded_reproducible (n C : Nat) (rows : List (List Rat)) (k : Nat) (tau : Tau)
+    (topkIdx : List (List Nat)) (seed : Nat) (fresh : Nat → Nat) (hwf : plWellFormed n C (.soft rows) none)
+    (hk : k ≤ C) (hrows : topkIdx.length = n) (hrow : ∀ ids ∈ topkIdx, ids.length = k)
+    (hfresh : ∀ s, fresh s < k) :
+    ∃ st, plCtor n C (.soft rows) none (some k) tau topkIdx = .ok st ∧
+      forRange n (fun i => plGetitem st i (fresh (seed + i))) =
+        .ok (plTopkSpec n topkIdx (fun i => fresh (seed + i))) ∧
+      ∀ i, i < n → plGetitem st i (fresh (seed + i)) =
+        .ok (((topkIdx.getD i []).getD (fresh (seed + i)) 0 : Nat) : Int) := by
+  obtain ⟨hitem, hall, _⟩ := c16x_pl_topk n C rows k tau topkIdx hwf hk hrows hrow
+  exact ⟨_, c16x_plCtor_ok n C (.soft rows) none (some k) tau topkIdx hwf,
+    hall _ (fun i _ => hfresh _), fun i hi => hitem i _ hi (hfresh _)⟩
+
+/-- seed 5 with the (made-up) generator family `fresh s = s % 2`: samples 0 and 1 draw positions 1 and 0 -/
+example : plTopkSpec 2 [[0, 1], [1, 2]] (fun i => (5 + i) % 2) = [1, 1] ∧ (∀ s, s % 2 < 2) :=
+  ⟨by decide, fun s => Nat.mod_lt s (by decide)⟩
+
+/-- top-2 of 3 classes, draws 1 and 0: labels 1 and 1 -/
+example : plTopkSpec 2 [[0, 1], [1, 2]] (fun i => 1 - i) = [1, 1] ∧
+    plWellFormed 2 3 (.soft [[1, 1, 1], [0, 3, 1]]) none := by
+  refine ⟨by decide, rfl, ?_, ?_⟩
+  · intro r hr; simp at hr; rcases hr with rfl | rfl <;> rfl
+  · intro bits h; cases h
+
+/-- **KDRandomClassWrapper.** Domain `rcDomain`: a known mode, at least one class, the torch generators keep their
+    contracts, and for the gather mode `0 < world_size ≤ len`. Then `_generate_classes` succeeds and stores the list
+    `rcSpec` — the drawn integers / the drawn permutation repeated cyclically (`perm[i % nc]`) / class `j / spc` of
+    position `j` in all-gather order — of one entry per sample; the per-sample accessor at every index and the bulk
+    accessor read that list; every entry is below `getshape_class()[0] = rcShape nc`. -/
+theorem randomClass_closed_form_total (n nc : Nat) (mode : RCMode) (ints perm : List Nat)
+    (hdom : rcDomain n nc mode ints perm) :
+    rcCtor n nc mode ints perm = .ok (rcSpec n nc mode ints perm) ∧
+    (rcSpec n nc mode ints perm).length = n ∧
+    (∀ i, rcGetitem (rcSpec n nc mode ints perm) i =
+      listGet ((rcSpec n nc mode ints perm).map (fun (c : Nat) => (c : Int))) i) ∧
+    rcGetall (rcSpec n nc mode ints perm) = .ok ((rcSpec n nc mode ints perm).map (fun (c : Nat) => (c : Int))) ∧
+    ∀ l ∈ (rcSpec n nc mode ints perm).map (fun (c : Nat) => (c : Int)), 0 ≤ l ∧ l < (rcShape nc : Int) := by
+  obtain ⟨hctor, hlen⟩ := c16x_rc_main n nc mode ints perm hdom
+  refine ⟨hctor, hlen, ?_, rfl, ?_⟩
+  · intro i
+    unfold rcGetitem
+    by_cases hi : i < (rcSpec n nc mode ints perm).length
+    · rw [listGet_of_lt _ _ hi, listGet_of_lt _ _ (by simpa using hi)]
+      simp
+    · rw [c16x_listGet_of_ge _ _ (by omega), c16x_listGet_of_ge _ _ (by simp; omega)]
+  · intro l hlm
+    obtain ⟨c, hc, rfl⟩ := List.mem_map.mp hlm
+    exact ⟨Int.natCast_nonneg _, Int.ofNat_lt.mpr (c16x_rc_range n nc mode ints perm hdom c hc)⟩
+
+/-- **KDRandomClassWrapper, gather mode, one position**: sample `k` gets class `agIdx n W k / spc` with
+    `spc = ceil(n / nc)` samples per class -/
+theorem randomClass_gather_closed_form (n nc W k : Nat) (ints perm : List Nat) (hW : 0 < W) (hWn : W ≤ n)
+    (hk : k < n) :
+    (rcSpec n nc (.gatherbug W) ints perm)[k]? = some (agIdx n W k / ((n + nc - 1) / nc)) := by
+  simp only [rcSpec]
+  have h := c16x_allGatherOrder_getElem? ((List.range n).map (fun j => j / ((n + nc - 1) / nc))) W k hW
+    (by simpa using hWn) (by simpa using hk)
+  rw [h]
+  simp only [List.length_map, List.length_range]
+  have hj : agIdx n W k < n := by
+    obtain ⟨hS, hSW⟩ := c16x_perRank n W hW hWn
+    have hp := padCount_lt n W hW
+    have hmodlt : k % ((n + padCount n W) / W) < (n + padCount n W) / W := Nat.mod_lt _ hS
+    have hkS : k / ((n + padCount n W) / W) < W := by
+      apply Nat.div_lt_of_lt_mul
+      rw [hSW]; omega
+    have h1 : (k % ((n + padCount n W) / W) + 1) * W ≤ (n + padCount n W) / W * W := Nat.mul_le_mul_right W hmodlt
+    rw [Nat.succ_mul] at h1
+    unfold agIdx
+    simp only
+    split <;> omega
+  simp [hj]
+
+example : rcSpec 7 4 (.gatherbug 2) [] [] = [0, 1, 2, 3, 0, 1, 2] ∧ rcSpec 5 3 .randperm [] [2, 0, 1] = [2, 0, 1, 2, 0] ∧
+    rcDomain 7 4 (.gatherbug 2) [] [] ∧ rcDomain 5 3 .randperm [] [2, 0, 1] :=
+  ⟨by decide, by decide, ⟨by decide, by decide, by decide⟩, ⟨by decide, by decide⟩⟩
+
+/-- **SemiWrapper.** Domain: `0 ≤ semi_percent ≤ 1` (`pOk`), `rng.permutation(len)` returned entries below `len`,
+    wrapped labels in range or -1. Then the constructor succeeds and both accessors read `smSpec`: -1 for the first
+    `k = int(len * semi_percent)` entries of the drawn permutation, the wrapped label elsewhere; one entry per sample,
+    each in the (delegated) announced range or -1. -/
+theorem semi_closed_form_total (labels : List Int) (nc k : Nat) (perm : List Nat)
+    (hperm : ∀ i ∈ perm, i < labels.length) (hl : ∀ c ∈ labels, InRange nc c) :
+    ∃ st, smCtor labels true k perm = .ok st ∧
+      (∀ i, smGetitem st i = listGet (smSpec labels k perm) i) ∧
+      smGetall st = .ok (smSpec labels k perm) ∧ (smSpec labels k perm).length = labels.length ∧
+      ∀ l ∈ smSpec labels k perm, InRange (smShape nc) l := by
+  obtain ⟨hitem, hall⟩ := c16x_sm_main labels k perm hperm
+  refine ⟨⟨labels, perm.take k⟩, rfl, hitem, hall, by simp [smSpec], ?_⟩
+  intro l hlm
+  exact semi_bulk_in_range labels true k perm _ nc hperm hl rfl _ hall l hlm
+
+example : smSpec [0, 1, 2, 3] 2 [3, 1, 0, 2] = [0, -1, 2, -1] := by decide
+
+/-! ## Which draws matter
+
+In the model every accessor except `plGetitem` takes the constructed state and an index and **no draw**: that the
+code's accessors make no draw either is what the harness checks (the recorded tape is replayed into the constructor
+only, and a second evaluation under a scrambled global generator must agree). What can be said inside the model, and is
+not a matter of signatures, is which of the draws offered to a constructor or accessor are *read*. -/
+
+/-- **draws that are not made do not matter**: without `shuffle` neither `ClassGroupsWrapper` nor
+    `RandomSuperclassWrapper` reads its tape; with at most one split `RandomSuperclassWrapper` does not read the second
+    permutation; the gather mode of `KDRandomClassWrapper` reads no draw, `random` only the integers, `randperm` only the
+    permutation; `SemiWrapper` reads the first `k` entries of its permutation only; `SwapLabelWrapper` reads the uniforms
+    only through the comparison with `p`; without top-k the per-sample accessor of `KDPseudoLabelWrapper` reads no
+    draw. (`OverwriteClassesWrapper`, `AllgatherClassWrapper` have no tape.) -/
+theorem label_unused_draws_irrelevant (labels : List Int) (nc g splits n : Nat) :
+    (∀ t t', cgCtor labels nc g false t = cgCtor labels nc g false t') ∧
+    (∀ p1 p1' p2 p2', rsCtor labels nc g splits false p1 p2 = rsCtor labels nc g splits false p1' p2') ∧
+    (∀ sh p1 p2 p2', splits ≤ 1 → rsCtor labels nc g splits sh p1 p2 = rsCtor labels nc g splits sh p1 p2') ∧
+    (∀ W a a' b b', rcCtor n nc (.gatherbug W) a b = rcCtor n nc (.gatherbug W) a' b') ∧
+    (∀ a b b', rcCtor n nc .random a b = rcCtor n nc .random a b') ∧
+    (∀ a a' b, rcCtor n nc .randperm a b = rcCtor n nc .randperm a' b) ∧
+    (∀ pOk k perm perm', perm.take k = perm'.take k → smCtor labels pOk k perm = smCtor labels pOk k perm') ∧
+    (∀ (p : Rat) us us' news, us.map (fun u => decide (u < p)) = us'.map (fun u => decide (u < p)) →
+      swCtor labels p us news = swCtor labels p us' news) ∧
+    (∀ (st : PL) i d d', st.topk = none → plGetitem st i d = plGetitem st i d') := by
+  refine ⟨fun _ _ => rfl, fun _ _ _ _ => rfl, ?_, fun _ _ _ _ _ => rfl, fun _ _ _ => rfl, fun _ _ _ => rfl, ?_, ?_, ?_⟩
+  · intro sh p1 p2 p2' h
+    have : ¬ splits > 1 := by omega
+    simp [rsCtor, this]
+  · intro pOk k perm perm' h
+    simp [smCtor, h]
+  · intro p us us' news h
+    simp [swCtor, h]
+  · intro st i d d' h
+    simp [plGetitem, h]
+
+/-! ## "Wrapped data other than the label is untouched"
+
+This clause of C16 has **no theorem**: it is checked by the harness only. The model of this file holds the label
+column alone; every wrapper of the property defines `getitem_class` / `getall_class` (and `getshape_class` where the
+announced range changes) and nothing else, so every other accessor (`getitem_x`, …) reaches the wrapped dataset through
+`KDWrapper.__getattr__` with the *same* index — also for `AllgatherClassWrapper`, which permutes the labels only. A
+two-column model would define that delegation and then prove it by `rfl`; the harness instead compares, on every
+generated case, the non-label items of the wrapped and the wrapping dataset index by index. -/
 
 end KDVerif.C16
